@@ -39,6 +39,45 @@ U_ARITY = KaniUnit(
                ("functions.rs", "arity", "BuiltInFunction")],
     prepare=prep_builtin_arbitrary, timeout=300, assumptions=STUB_ASSUMPTIONS[:1])
 
+def prep_heap_ctor(sc):
+    prep_common(sc)
+    if getattr(sc, "_heapctor", False):
+        return
+    sc._heapctor = True
+    sc.insert_in_impl("heap.rs", "Heap",
+                      "    #[cfg(kani)]\n    pub fn verif_empty() -> Self {\n        Self { values: Vec::new() }\n    }\n"
+                      "    #[cfg(kani)]\n    pub fn verif_len(&self) -> usize {\n        self.values.len()\n    }\n",
+                      "empty-heap constructor and length accessor for harnesses (Heap::new builds an IndexMap of constants: SipHash, >15 min in CBMC)",
+                      unit="heap-ctor")
+
+
+def prep_values(sc):
+    prep_builtin_arbitrary(sc)
+    prep_heap_ctor(sc)
+
+
+FMT_BT = STUB_ASSUMPTIONS[:2]
+
+U_CMP_SCALAR = KaniUnit(
+    "U-CMP-SCALAR", "Value::equals / Value::compare on all triples of scalars (every f64 but NaN, booleans, null): "
+    "equivalence, antisymmetry, trichotomy, Equal iff equals, transitivity, documented order",
+    modules=[("values.rs", "verif_values.rs")], harnesses=["u_cmp_scalar_laws"],
+    functions=[("values.rs", "equals", "Value"), ("values.rs", "compare", "Value")],
+    prepare=prep_values, timeout=900, assumptions=FMT_BT + ["harness heap is empty (Heap::verif_empty): scalars never touch the heap"])
+
+U_CMP_TAGS = KaniUnit(
+    "U-CMP-TAGS", "values of different type tags (9x9 off-diagonal, arbitrary possibly dangling pointers, empty heap): "
+    "equals = false, compare = None, with no heap dereference; unordered types stay unordered",
+    modules=[("values.rs", "verif_values.rs")], harnesses=["u_cmp_tags", "u_cmp_unordered_types"],
+    functions=[("values.rs", "equals", "Value"), ("values.rs", "compare", "Value")],
+    prepare=prep_values, timeout=900, assumptions=FMT_BT)
+
+U_ORDERING = KaniUnit(
+    "U-ORDERING", "check_ordering: Some(o) => Ok(o in expected), None => Err, for every ordering, expected set (<=3) and type pair",
+    modules=[("expressions.rs", "verif_expr_ordering.rs")], harnesses=["u_ordering_check"],
+    functions=[("expressions.rs", "check_ordering", None)],
+    prepare=prep_common, timeout=600, assumptions=FMT_BT[:1])
+
 U_PREC = KaniUnit(
     "U-PREC", "operator_info orders the 26 operators as the C10 table; ^ alone is right-associative; table rows "
     "pair each operator with its grammar rule",
@@ -123,6 +162,13 @@ prop("C01", [U_ARITY, U_HEAP], "other",
      ["pest parsing of arbitrary UTF-8 and pairs_to_expr unwraps", "ariadne rendering and span-inside-text",
       "serde_json", "formatter string slicing", "native stack depth"],
      STUB_ASSUMPTIONS)
+
+prop("C12", [U_CMP_SCALAR, U_CMP_TAGS, U_ORDERING], "other",
+     "Contracts on Value::equals / Value::compare / check_ordering proved for every scalar triple and every pair of "
+     "type tags. Strings, lists and records (lexicographic rule, key-order-insensitive record equality) are NOT decided.",
+     ["string/list/record comparison (heap recursion: >15 min in CBMC for two 2-element lists; Verus rejects the zip loop)",
+      "that each operator arm passes the right expected set (U-BINOP-* units)"],
+     STUB_ASSUMPTIONS[:2])
 
 
 NOT_APPLICABLE = {
